@@ -102,6 +102,21 @@ theorem C08_attrs_roundtrip (env : Env) (hnp : NpFix env) (m : Meta) (h : Valid 
     ∀ k, k ≠ "geff" → lookup (writeAttrs attrs m) k = lookup attrs k :=
   ⟨readAttrs_writeAttrs hnp ((valid_iff_validCode env m).1 h).1 attrs, fun k hk => foreign_attrs_kept attrs m k hk⟩
 
+/-- **C08 (store histories)**: after any sequence of earlier writes `ms`, reading returns exactly the
+object written last — nothing of the older objects survives (cleared fields stay cleared) — and the
+foreign attributes are still what they were before the first write. -/
+theorem C08_rewrite (env : Env) (hnp : NpFix env) (ms : List Meta) (m : Meta) (h : Valid env m) (attrs : Attrs) :
+    readAttrs env (writeAttrs (ms.foldl writeAttrs attrs) m) = .ok { val := m, fieldsSet := fieldNames } ∧
+    ∀ k, k ≠ "geff" → lookup (writeAttrs (ms.foldl writeAttrs attrs) m) k = lookup attrs k := by
+  refine ⟨(C08_attrs_roundtrip env hnp m h _).1, fun k hk => ?_⟩
+  rw [(C08_attrs_roundtrip env hnp m h _).2 k hk]
+  induction ms generalizing attrs with
+  | nil => rfl
+  | cons m1 ms ih =>
+    simp only [List.foldl_cons]
+    rw [ih (writeAttrs attrs m1)]
+    exact foreign_attrs_kept attrs m1 k hk
+
 /-- what is stored under `geff` is the dump, so `C08_dump_valid` applies to the stored attribute -/
 theorem C08_stored_attr_is_dump (m : Meta) (attrs : Attrs) : lookup (writeAttrs attrs m) "geff" = some (dump m) :=
   lookup_setKey_same attrs "geff" (dump m)
